@@ -129,6 +129,19 @@ pair[0](2)
     for idx, (key, val) in rows: print(idx, key, val)
     return c, found, total, pick, data
 ''',
+    # the context expression of a with item is a bare name (or ends in one): the cursor at its end stands where the target is bound next
+    'with-items-whose-context-is-a-name': '''def guarded(lock, first, second, rows):
+    with lock as held:
+        print(held)
+    with first as one, second as two:
+        print(one, two)
+    with (first or second) as either:
+        print(either)
+    for row in rows: print(row)
+    for idx, row in rows:
+        print(idx, row)
+    return held, one, two, either
+''',
 }
 
 
@@ -161,7 +174,7 @@ print('REPRODUCED: inserting the cursor changed the analysis' if list(got[1]) !=
 
 
 @harness(['C12'], 'supp.assistant.assist [cursor inside and at the end of every name read and attribute access: transparency of the mark]',
-         bounded='6 programs (decorators of functions, methods and classes, functions with every kind of control flow and parameters, a class hierarchy with instance attributes, closures / '
+         bounded='7 programs (with items whose context expression is a bare name; decorators of functions, methods and classes, functions with every kind of control flow and parameters, a class hierarchy with instance attributes, closures / '
                  'globals / lambda, bindings made inside expressions: walrus in tests, operands and comprehensions, with items, tuple targets; `raise ... from` / `yield from` broken before `from`, after a backslash and inside brackets) x every name read (cursor after the first character, in the middle, at the end) and every attribute access '
                  '(cursor after the dot, after the first character, at the end)')
 def mark_transparency(run):
